@@ -49,6 +49,7 @@ func genC16(g *gen) {
 		n = 40
 	}
 	pickL := func() string { return g.r.pick(colLayouts) }
+	g.orderMismatchMatrix()
 	for _, op := range append(append(append([]string{}, arithOps...), cmpOps...), "minb", "maxb") {
 		isCmp := false
 		for _, c := range cmpOps {
@@ -107,6 +108,22 @@ func genC16(g *gen) {
 					steps = append(steps, fmt.Sprintf("dump $%d", o))
 				}
 				g.emit(steps...)
+			}
+		}
+	}
+}
+
+// orderMismatchMatrix: the destination's data order differs from the (equally ordered, contiguous) operands' — the
+// one situation in which only the destination forces the iterator path.
+func (g *gen) orderMismatchMatrix() {
+	for _, op := range []string{"add", "sub", "mul", "div"} {
+		for _, mode := range []string{"reuse", "incr"} {
+			for _, kind := range []string{"TT", "TS", "ST"} {
+				for _, lay := range [][2]string{{"contig", "colmajor"}, {"colmajor", "contig"}, {"contig", "colconv"}, {"colconv", "contig"}} {
+					for _, sh := range [][]int{{2, 3}, {2, 3, 2}} {
+						g.binProgram(op, g.r.pick([]string{"f64", "i32", "c64", "u16"}), kind, "fn", sh, lay[0], lay[0], mode, lay[1])
+					}
+				}
 			}
 		}
 	}
